@@ -1,5 +1,3 @@
-\* X15: configuration "str" of UtilContMC (string algebra of _CaseInsensitiveString, EDGE emission);
-\* generated by harness/props/x15.py: configs()
 CONSTANTS
   Which = "str"
   NNodes = 0
